@@ -288,6 +288,9 @@ def full_cell(P, A):
     if P.get('prefail'):
         from . import history
         history.failed_attempts(ro, addr=addr_id, level=level)
+    if P.get('presend'):
+        from . import history
+        history.resend_stories(ro)
     pl = plan(P, A, ids)
     rc = B.rc_of(ro)
     if level == 'story':
